@@ -135,8 +135,10 @@ def random_arrays(ctx):
     import cubed
     import cubed.random
 
-    for _ in range(ctx.n(6, 60)):
-        shape = tuple(ctx.rng.randint(2, 9) for _ in range(ctx.rng.choice([1, 2])))
+    for _ in range(ctx.n(16, 120)):
+        shape = tuple(ctx.rng.randint(2, 9) for _ in range(ctx.rng.choice([1, 2, 3, 3, 4])))
+        if len(shape) >= 3:
+            shape = tuple(min(n, 6) for n in shape)
         chunks = tuple(ctx.rng.randint(1, n) for n in shape)
         prog = {"random": {"shape": shape, "chunks": chunks}}
         from harness.obs import Built as _B
